@@ -22,7 +22,7 @@ for sd in "${seeds[@]}"; do
     rp=$(echo "$line" | sed -n 's/.*replay=\([^ ]*\).*/\1/p')
     case "$rp" in
       *.ops) mkdir -p "$OUT/$prop"
-             suite=$(grep -m1 '^case ' "$rp" | awk '{print $3}')
+             suite=$(grep -m1 '^# suite ' "$rp" | awk '{print $3}')
              case "$suite" in
                hubsubs|shutdown|serverconc) echo "$sd: suite $suite re-generates its cases on replay: not harvested";;
                *) f="$OUT/$prop/$suite-seed-$sd.ops"
